@@ -356,13 +356,16 @@ func closingOrder(b *built, caps map[int][]string) map[int][]string {
 	return out
 }
 
-func TestProp(t *testing.T) {
-	rapid.Check(t, func(t *rapid.T) {
-		c := gen1(t)
-		if err := h.Safely(func() error { return check(c) }); err != nil {
-			h.Violation(t, c, "%s", err.Error())
-		}
-	})
+func prop(t *rapid.T) {
+	c := gen1(t)
+	if err := h.Safely(func() error { return check(c) }); err != nil {
+		h.Violation(t, c, "%s", err.Error())
+	}
 }
+
+func TestProp(t *testing.T) { rapid.Check(t, prop) }
+
+// FuzzProp lets Go's coverage-guided mutator drive the structured generators (thorough tier).
+func FuzzProp(f *testing.F) { f.Fuzz(rapid.MakeFuzz(prop)) }
 
 func TestReplay(t *testing.T) { h.RunReplay(t, check) }
